@@ -398,6 +398,11 @@ fn lm_line<'a>(p: &[Var<'a>], d: &[&[f64]]) -> Var<'a> {
 fn lm_quadr<'a>(p: &[Var<'a>], d: &[&[f64]]) -> Var<'a> {
     p[0] + p[1] * d[0][0] + p[2] * (d[0][0] * d[0][0])
 }
+/// a degree-4 polynomial written term by term as c_j·x^j / j! (14+ tape nodes per evaluation)
+fn lm_taylor5<'a>(p: &[Var<'a>], d: &[&[f64]]) -> Var<'a> {
+    let x = d[0][0];
+    p[0] * 1.0 + p[1] * x / 1.0 + p[2] * x * x / 2.0 + p[3] * x * x * x / 6.0 + p[4] * x * x * x * x / 24.0
+}
 fn lm_const<'a>(p: &[Var<'a>], _d: &[&[f64]]) -> Var<'a> {
     p[0] * 1.0
 }
@@ -451,6 +456,18 @@ fn lm_problems() -> Vec<LmProblem> {
                 xs: xr.iter().map(|x| x / 4.0).collect(),
                 ys: xr.iter().enumerate().map(|(i, x)| 2.0 * (0.8 * x / 4.0).exp() + 0.1 * noise(i)).collect(),
                 starts: vec![vec![1.0, 0.0], vec![2.0, 0.8]],
+            });
+        }
+        if n >= 40 {
+            v.push(LmProblem {
+                name: "taylor polynomial, five parameters",
+                f: lm_taylor5,
+                linear: true,
+                eval: |p, x| p[0] + p[1] * x + p[2] * x * x / 2.0 + p[3] * x * x * x / 6.0 + p[4] * x * x * x * x / 24.0,
+                jac: |_, x| vec![1.0, x, x * x / 2.0, x * x * x / 6.0, x * x * x * x / 24.0],
+                xs: (0..n).map(|i| -2.0 + 4.0 * i as f64 / (n - 1) as f64).collect(),
+                ys: (0..n).map(|i| { let x = -2.0 + 4.0 * i as f64 / (n - 1) as f64; 1.5 - 2.0 * x + 0.75 * x * x - 0.4 * x * x * x + 0.1 * x * x * x * x + noise(i) }).collect(),
+                starts: vec![vec![25.0, -30.0, 40.0, -20.0, 35.0], vec![0.0; 5]],
             });
         }
         v.push(LmProblem { name: "quadratic", f: lm_quadr, linear: true, eval: |p, x| p[0] + p[1] * x + p[2] * x * x, jac: |_, x| vec![1.0, x, x * x], xs: xs.clone(), ys: xs.iter().enumerate().map(|(i, x)| 1.0 + 0.5 * x - 0.25 * x * x + noise(i)).collect(), starts: vec![vec![0.0, 0.0, 0.0], vec![-20.0, 10.0, 5.0]] });
